@@ -363,6 +363,9 @@ pub fn common_faults(g: &mut Gen, s: &mut Scenario) {
     if s.slow_drop == 0 && g.rng.chance(1, 4) {
         s.slow_drop = 1;
     }
+    if g.rng.chance(1, 2) {
+        s.post_write = true;
+    }
     if s.trap.is_none() && g.rng.chance(3, 10) {
         let mut probes = vec![rt_probe::CLAIMED_BEFORE_PUBLISH, rt_probe::CLAIMED_BEFORE_PUBLISH];
         if s.slow_clone > 0 {
